@@ -24,7 +24,12 @@ SPEC = {
             ") ] ; : , := ( [ THEN DO OF TO BY ELSE ELSIF UNTIL END_IF END_CASE END_VAR END_PROGRAM, end of input, a "
             "rotating slice of the remaining punctuation/END_*/structural keywords and trivia pieces; thorough: the whole "
             "focused list spaced, glued and followed by EOF; plus random (snippet|corpus file, boundary) pairs with the "
-            "whole real token table), and nesting cases (expressions to depth 1500, statements/types/namespaces to depth 200, in a "
+            "whole real token table), the nesting-guard family (in EVERY run: 13 recursive expression forms - parentheses, "
+            "call arguments positional/named/second, index lists, right-associative **, unary - and NOT, unary after "
+            "binary, call/index and paren/call alternations, ADR - at exactly MAX_EXPRESSION_DEPTH levels, one level "
+            "more and 76 more (thorough: also 1000, 2000, 3000, 4000 levels), plus 3 flat chain forms; parsed in the "
+            "capped child on a 2 MiB thread stack; oracle: the parse returns, and the nesting-limit error (limit and "
+            "message read from expressions.rs) is reported iff the form needs more levels than the limit), and nesting cases (expressions to depth 1500, statements/types/namespaces to depth 200, in a "
             "child process). Sweep and nesting cases run in a child process under an address-space cap with a "
             "per-text progress deadline; all other cases under a watchdog with a memory-growth check, so a hang or "
             "run-away allocation is reported with the text that causes it. Per case the real lexer, parser hook and parser run; 4 operations are compared with the "
@@ -52,6 +57,9 @@ SPEC = {
         "monitor and the oracle, not proved",
         "nesting beyond the stated depths is outside the claim: statements, types and namespaces recurse without a "
         "guard (expressions are guarded by MAX_EXPRESSION_DEPTH = 1024)",
+        "flat operator/postfix chains are exercised up to 4000 chained operations: the green tree of a flat chain is as "
+        "deep as the chain is long and rowan's recursive drop overflows a 2 MiB stack from about 6000-9000 operations on "
+        "the unchanged code (witness: x := a followed by 3000 x '^[1](2)', 21 KB)",
     ],
 }
 
